@@ -48,18 +48,21 @@ func ruleQueueFifo(w *World, r *RuleResult) {
 	advances := func(p *Path, cur string) bool {
 		for _, e := range p.Events {
 			if e.Kind == "store" && e.LV.Op == "sel" && e.LV.S == cur {
-				v := stripConv(e.Val)
-				if v.Op == "rem" {
-					if q.isCap(v.A[1]) {
-						l := linearOf(v.A[0])
-						if l.Const == 1 && len(l.Coef) == 1 {
-							for _, a := range l.Atom {
-								if cursorOf(a) == cur {
-									return true
-								}
-							}
-						}
+				// the old value of the cursor is the selector as loaded before this store
+				// (it occurs in the stored value, or only in the wrap test when 0 is stored)
+				found := false
+				try := func(t *T) bool {
+					if !found && cursorOf(t) == cur && q.ringSucc(p, t, e.Val) {
+						found = true
 					}
+					return !found
+				}
+				e.Val.walk(try)
+				for _, cd := range p.Conds {
+					cd.Atom.walk(try)
+				}
+				if found {
+					return true
 				}
 			}
 		}
@@ -159,6 +162,15 @@ func ruleQueueFifo(w *World, r *RuleResult) {
 							if cu := cursorOf(a); cu != "" && cu != front {
 								good = false
 							}
+						}
+					}
+				}
+				if idx.Op == "loopvar" && front != "" {
+					// a position that starts at the front cursor and takes the ring successor every iteration
+					if init, steps, ok := loopVarSteps(w, fn, p, idx); ok && cursorOf(init) == front && len(steps) > 0 {
+						good = true
+						for _, st := range steps {
+							good = good && q.ringSucc(st.p, idx, st.v)
 						}
 					}
 				}
@@ -600,7 +612,7 @@ func ruleForLabels(w *World, r *RuleResult) {
 					if b.Op != "sel" || b.A[0].Op != "deref" || !mangledField(w, m, b.S) {
 						continue
 					}
-				case val.Op == "call" && val.S == "fmt.Sprintf" && len(val.A) > 0 && val.A[0].Op == "str" && strings.Contains(val.A[0].S, "__for"):
+				case isMangled(p, val):
 					// the mangled name computed on the spot; the site that substitutes references inside
 					// the body (it compares body tokens with the labels) is WIRE.for's business
 					if hasCond(p, func(a *T, vv bool) bool { return strings.Contains(a.Show(), "forContent") }) {
@@ -650,7 +662,7 @@ func mangledField(w *World, m *machine, field string) bool {
 		ps, _ := w.Paths(s)
 		for _, p := range ps {
 			for _, e := range p.Events {
-				if e.Kind == "store" && e.LV.Op == "elem" && e.Val.Op == "call" && e.Val.S == "fmt.Sprintf" && len(e.Val.A) > 0 && e.Val.A[0].Op == "str" && strings.Contains(e.Val.A[0].S, "__for") {
+				if e.Kind == "store" && e.LV.Op == "elem" && isMangled(p, e.Val) {
 					b := stripConv(e.LV.A[0])
 					if b.Op == "sel" && b.S == field {
 						return true
